@@ -13,6 +13,7 @@ import (
 	"io/ioutil"
 	"math/rand"
 	"net"
+	"time"
 
 	"github.com/brutella/hc/crypto"
 
@@ -275,6 +276,14 @@ func checkConn(s *stream, al altered, rnd *rand.Rand) {
 			if afterClose > 5 {
 				break
 			}
+			// the caller goes on as a server loop does: it renews or clears its deadlines and reads again; whatever the
+			// receiver remembered about the rejected frame must survive that
+			switch afterClose % 3 {
+			case 1:
+				hc.SetReadDeadline(time.Now().Add(time.Hour))
+			case 2:
+				hc.SetDeadline(time.Time{})
+			}
 			continue
 		}
 		if n > 0 {
@@ -368,7 +377,7 @@ func main() {
 		}
 		// truncation at every offset
 		{
-			for cut := 0; cut < len(orig); cut += (stride+7)/8 {
+			for cut := 0; cut < len(orig); cut += (stride + 7) / 8 {
 				if !r.Thorough() && len(orig) > 600 && cut%5 != 0 && cut > 40 && cut < len(orig)-40 {
 					continue
 				}
